@@ -20,6 +20,8 @@ SPECS = [
              "ext_count() == 1", "ext_callee(0) is attr_of(val(1), 'include')",
          ] + [c % {'i': 0} for c in CALL] + [
              "ext_i18n(0, 'domain') is i18n0('domain')",
+             # an error inside the macro is reported against the use-macro expression (C12)
+             "ext_token(0) == token_pos(1)",
              # the macro sees the name it was called with and the caller's slot filler
              "scope_arg_visible(ext_arg(0, 1), 'macroname') == 'e1'",
              "scope_arg_visible(ext_arg(0, 1), '__slot_s') is not UNBOUND()",
@@ -36,6 +38,9 @@ SPECS = [
          text='A<m metal:define-macro="m">%s</m>B' % H1,
          ensures=[
              "ext_count() == 1", "ext_callee(0) is module_function('render_m')",
+             # the caller's position is cleared: the macro function records its own failing
+             # expression, the enclosing function must not add an unrelated one (C12)
+             "ext_token(0) is None",
          ] + [c % {'i': 0} for c in CALL] + [
              "holes(1) == 0",
              "S() == S0() + 'A' + ext_out(0) + 'B'",
